@@ -388,6 +388,18 @@ func propC07(t *rapid.T) {
 			} else {
 				c.lg = p.lg.WithOptions(zap.Fields(toFields(c.own)...))
 			}
+		case "wrap":
+			// an application's own core on top (WrapCore): it accepts what the core below enables, registers ITSELF with
+			// the checked entry and forwards Write - the Core contract makes that a core like any other, also on top of
+			// a WithLazy logger that has not been used yet (whose fields are then evaluated at that first Write)
+			wrapper := func(cc zapcore.Core) zapcore.Core {
+				return &c04Acceptor{inner: cc, accept: func(e zapcore.Entry) bool { return cc.Enabled(e.Level) }}
+			}
+			if p.sg != nil {
+				c.sg = p.sg.WithOptions(zap.WrapCore(wrapper))
+			} else {
+				c.lg = p.lg.WithOptions(zap.WrapCore(wrapper))
+			}
 		case "named":
 			nm := rapid.SampledFrom([]string{"a", "b", "", "x.y", "a", ".internal", "..h", "a.", ".", "b"}).Draw(t, "name")
 			if p.sg != nil {
@@ -421,6 +433,14 @@ func propC07(t *rapid.T) {
 		"lazy":  func(*rapid.T) { derive("lazy") },
 		"opts":  func(*rapid.T) { derive("opts") },
 		"named": func(*rapid.T) { derive("named") },
+		"wrap": func(rt *rapid.T) {
+			// (cores whose Write relies on the core below having registered itself in Check - hooks, samplers - cannot
+			// sit under a registering wrapper; that is their documented design, not a defect)
+			if kind != "json" && kind != "console" && kind != "observer" && kind != "lazy" && kind != "tee(json,observer)" && kind != "tee(console,observer)" && kind != "increase" {
+				rt.Skip("wrapper needs forwarding cores below")
+			}
+			derive("wrap")
+		},
 		"sugar": func(*rapid.T) { derive("sugar") },
 		"log": func(*rapid.T) {
 			logThrough(nodes[rapid.IntRange(0, len(nodes)-1).Draw(t, "node")])
